@@ -32,7 +32,11 @@ RULE = (
     'cruise patterns x 3 masses, 30 points (2 speeds x 5 climb rates x 3 accelerations) per case; profile '
     'lattice: engine x parameter set x n x altitude profile x speed schedule x cruise pattern x segment '
     'length (scalar / per-segment array) x wind x mass x iteration count x entry point, and for the '
-    'fuel-dependent entry points initial estimate x MTOW x load factor x reserve menus. A profile case is '
+    'fuel-dependent entry points initial estimate x MTOW x load factor x reserve menus; histories: all ordered '
+    'pairs of an 8-call menu on one model object, and pairs differing in exactly one argument (every argument of '
+    'every entry point, both orders), each with fresh arrays and with the same array objects refilled in place; '
+    'profiles with points above the thrust ceiling / turboprop beyond C_f2 (only finite, never-increasing, '
+    'prescribed end and MTOW clauses judged there). A profile case is '
     'non-trivial when fuel was burnt; distinct = distinct case'
 )
 ASSUMPTIONS = [
@@ -40,6 +44,7 @@ ASSUMPTIONS = [
     'piston C_f1 is taken in kg/s exactly as the code uses it (docstrings give no unit or equation number for piston fuel flow)',
     'fuel per metre is taken as 0 where ground speed / fuel flow < 1 m/kg (the integration guard in update_mass_vector); no lattice point is within 1e-9 of that or any other branch point (such cases would be classed ambiguous and skipped; the count is reported as an outcome class)',
     'array inputs are float64 / bool numpy arrays of equal length; per-segment lengths are an array of n-1 entries',
+    'outside the envelope (negative BADA-3 thrust limit or fuel coefficient) the equations and trapezoid clauses are not judged: the property text gives no meaning to negative fuel flow; never-increasing, finite, prescribed end and MTOW are judged',
     'unit factors and ISA constants have the digits used by AEIC.units / AEIC.constants (checked at worker start)',
 ]
 
@@ -272,8 +277,38 @@ def point_inputs(case):
     return _vary_arrays(case, _point_inputs_base(case))
 
 
+def outside_altitude(s):
+    """First altitude (500 m steps above the C_Tc,2 ceiling, below the 25 km ISA limit) at which the
+    maximum climb thrust of the set is negative at cruise speed; the ceiling x 1.2 if there is none."""
+    par, env = s['par'], s['env']
+    h = par['c_tc2'] * ref.FOOT
+    top = h * 1.2
+    while h < 24500.0:
+        if ref.max_climb_thrust_isa(par, h, env['v_cr']) < 0:
+            return h
+        h += 500.0
+    return min(top, 24500.0)
+
+
 def profile_inputs(case):
-    return _vary_arrays(case, _profile_inputs_base(case))
+    inp = _vary_arrays(case, _profile_inputs_base(case))
+    out = case.get('out')
+    if out:
+        s = _pset(case)
+        n = case['n']
+        idx = {'all': range(n), 'last': [n - 1], 'middle': [n // 2], 'first': [0]}[case['where']]
+        for i in idx:
+            if out == 'above-ceiling':
+                h = outside_altitude(s)
+                inp['altitude'][i] = h
+                inp['temperature'][i] = ref.isa_temperature(h)
+            else:  # turboprop faster than C_f2 knots
+                v = s['par']['c_f2'] * ref.KNOT * 1.05
+                inp['v_tas'][i] = v
+                inp['groundspeed'][i] = v
+            inp['rocd'][i] = 0.0
+            inp['acceleration'][i] = 0.0
+    return inp
 
 
 def fuel_menu(case):
@@ -352,10 +387,18 @@ def sublattices(tier, seed):
                 dict(prof, k='fv', prof='climb', **fuel),
             ]
             cases += [dict(k='hist', a=a, b=b) for a in menu for b in menu]
+            # the same pairs with the second call passing the first call's array objects refilled in place
+            # (possible where the array lengths agree)
+            cases += [
+                dict(k='hist', a=a, b=b, inplace=True)
+                for a in menu for b in menu
+                if (a['k'] == 'pt') == (b['k'] == 'pt') and a.get('n') == b.get('n')
+            ]  # fmt: skip
     subs.append(
         {
             'name': 'two calls on one model object',
-            'axes': {'eng': ENGINES, 'ps': [0, 1], 'first call': list(range(8)), 'second call': list(range(8))},
+            'axes': {'eng': ENGINES, 'ps': [0, 1], 'first call': list(range(8)), 'second call': list(range(8)),
+                     'arrays of the second call': ['fresh', 'same objects refilled in place (equal lengths)']},  # fmt: skip
             'cases': cases,
         }
     )
@@ -381,13 +424,36 @@ def sublattices(tier, seed):
                 arg_axis[b['k']] = args
                 for a in args:
                     var = dict(b, vary=a)
-                    cases += [dict(k='hist', a=b, b=var), dict(k='hist', a=var, b=b)]
+                    for inplace in (False, True):
+                        cases += [dict(k='hist', a=b, b=var, inplace=inplace), dict(k='hist', a=var, b=b, inplace=inplace)]
+    # points outside the thrust / fuel envelope: only finite / never-increasing / prescribed end / MTOW judged
+    ocases = []
+    oax = dict(
+        k=['ci', 'cf', 'fr', 'fv'], n=[3, 5], prof=['level', 'climb'], where=['all', 'first', 'middle', 'last'],
+        seg=[50000.0, 'array'], it=[1, 10], m=[1, 2],
+    )  # fmt: skip
+    for eng in ENGINES:
+        for ps in (0, 1):
+            for out in ['above-ceiling'] + (['over-cf2'] if eng == 'Turboprop' else []):
+                for c in _prod(oax):
+                    c = dict(c, eng=eng, ps=ps, out=out, spd='constant', cr='middle', gs=0.0)
+                    if c['k'] in ('fr', 'fv'):
+                        c.update(est='ref', mtow='max', lf=1.0, res=1)
+                    ocases.append(c)
+    subs.append(
+        {
+            'name': 'profiles with points outside the thrust / fuel envelope (negative thrust limit or fuel coefficient)',
+            'axes': dict(oax, eng=ENGINES, ps=[0, 1], out=['above-ceiling', 'over-cf2 (turboprop)']),
+            'cases': ocases,
+        }
+    )
     subs.append(
         {
             'name': 'two calls on one model object differing in exactly one argument',
             'axes': {
                 'eng': ENGINES, 'ps': [0, 1], 'entry': ['pt', 'ci', 'cf', 'fr', 'fv'], 'profile': ['mixed', 'climb'],
                 'varied argument': sorted({a for v in arg_axis.values() for a in v}), 'order': ['base first', 'variant first'],
+                'arrays of the second call': ['fresh', 'same objects refilled in place'],
             },  # fmt: skip
             'cases': cases,
         }
@@ -433,26 +499,34 @@ def _new_model(case):
     return model_cls(ap)
 
 
-def _arrays(inp):
+def _arrays(inp, buf=None):
+    """Lists -> numpy arrays. With a buffer dict, an array object of the same name, shape and dtype
+    left by the previous call is refilled IN PLACE and passed again (a caller that keeps its profile
+    in pre-allocated arrays); otherwise a fresh array is made (and remembered in the buffer)."""
     np = _STATE['np']
     out = {}
     for k, v in inp.items():
-        if k == 'in_cruise':
-            out[k] = np.array(v, dtype=bool)
-        elif isinstance(v, list):
-            out[k] = np.array(v, dtype=float)
-        else:
+        if not isinstance(v, list):
             out[k] = v
+            continue
+        new = np.array(v, dtype=bool if k == 'in_cruise' else float)
+        old = None if buf is None else buf.get(k)
+        if old is not None and old.shape == new.shape and old.dtype == new.dtype:
+            old[...] = new
+            new = old
+        if buf is not None:
+            buf[k] = new
+        out[k] = new
     return out
 
 
 _ORDER = ['temperature', 'altitude', 'v_tas', 'rocd', 'acceleration', 'in_cruise', 'groundspeed']
 
 
-def _call_entry(case, inp, model):
+def _call_entry(case, inp, model, buf=None):
     """-> (returned mass list | None, recorded sgr calls [(mass list, sgr list)], exception | None)"""
     np = _STATE['np']
-    a = _arrays(inp)
+    a = _arrays(inp, buf)
     calls = []
     orig = model.calculate_specific_ground_range
 
@@ -526,11 +600,11 @@ def _compare_points(par, inp, mass, got_thrust, got_sgr, vio, label):
     return pts, False
 
 
-def _run_point(case, model):
+def _run_point(case, model, buf=None):
     np = _STATE['np']
     s = _pset(case)
     inp = point_inputs(case)
-    a = _arrays(inp)
+    a = _arrays(inp, buf)
     vio = []
     try:
         thr = model.calculate_thrust(*[a[k] for k in ['mass'] + _ORDER[:-1]])
@@ -551,13 +625,13 @@ def _run_point(case, model):
     return {'outcome': f'points:{regimes}', 'nontrivial': True, 'violations': vio}
 
 
-def _run_profile(case, model):
+def _run_profile(case, model, buf=None):
     s = _pset(case)
     par = s['par']
     inp = profile_inputs(case)
     k = case['k']
     n = case['n']
-    ret, calls, ex = _call_entry(case, inp, model)
+    ret, calls, ex = _call_entry(case, inp, model, buf)
     if ex is not None:
         v, out = _internal_error(ex, ENTRY[k])
         return {'outcome': out, 'nontrivial': True, 'violations': [v]}
@@ -567,6 +641,8 @@ def _run_profile(case, model):
         return {'outcome': 'bad-shape', 'nontrivial': True, 'violations': vio}
     lengths = ref.seg_lengths(inp['segment_distance'], n)
     scale = max(abs(x) for x in ret)
+    if case.get('out'):
+        return _judge_outside(case, ret, calls, scale)
 
     # BADA-3 equations at the last evaluation the entry point made
     last_mass, last_sgr = calls[-1]
@@ -629,8 +705,33 @@ def _run_profile(case, model):
     return {'outcome': outcome, 'nontrivial': total > 0, 'violations': vio}
 
 
-def _run_single(case, model):
-    return _run_point(case, model) if case['k'] == 'pt' else _run_profile(case, model)
+def _judge_outside(case, ret, calls, scale):
+    """Points outside the thrust / fuel envelope (negative BADA-3 thrust limit or fuel coefficient):
+    only the clauses that hold for whatever the model returns are judged - finite profile (checked by
+    the caller), never increasing, prescribed end exact, MTOW bound."""
+    k = case['k']
+    n = case['n']
+    vio = []
+    up = [i for i in range(n - 1) if ret[i + 1] > ret[i] + RTOL * scale]
+    if up:
+        vio.append(V('mass-increases', f'{ENTRY[k]} ({case["out"]} at {case["where"]} points): mass rises over steps {up}: returned {ret}'))
+    if k in ('ci', 'cf'):
+        m = prescribed_mass(case)
+        got = ret[0] if k == 'ci' else ret[-1]
+        if got != m:
+            vio.append(V('prescribed-mass', f'{ENTRY[k]}: prescribed {m}, profile {"starts" if k == "ci" else "ends"} at {got!r}'))
+    else:
+        f = fuel_menu(case)
+        if ret[0] > f['mtow']:
+            vio.append(V('exceeds-mtow', f'{ENTRY[k]}: initial mass {ret[0]!r} > MTOW {f["mtow"]}'))
+    neg = any(x < 0 for c in calls for x in c[1])
+    total = ret[0] - ret[-1]
+    outcome = f'{k}:outside envelope:' + ('negative fuel flow seen, ' if neg else 'fuel flow stays positive, ') + ('burns' if total > 0 else 'no burn')
+    return {'outcome': outcome, 'nontrivial': True, 'violations': vio}
+
+
+def _run_single(case, model, buf=None):
+    return _run_point(case, model, buf) if case['k'] == 'pt' else _run_profile(case, model, buf)
 
 
 def run_case(case):
@@ -641,9 +742,11 @@ def run_case(case):
         except Exception as ex:
             v, out = _internal_error(ex, 'Bada3FuelBurnModel(Bada3AircraftParameters)')
             return {'outcome': out, 'nontrivial': True, 'violations': [v]}
-        first = _run_single(case['a'], model)
-        r = _run_single(case['b'], model)
-        r['outcome'] = f'after {case["a"]["k"]} ({first["outcome"].split(":")[0]}): ' + r['outcome'].split(':')[0]
+        buf = {} if case.get('inplace') else None
+        first = _run_single(case['a'], model, buf)
+        r = _run_single(case['b'], model, buf)
+        how = 'same arrays refilled' if buf is not None else 'fresh arrays'
+        r['outcome'] = f'after {case["a"]["k"]} ({first["outcome"].split(":")[0]}), {how}: ' + r['outcome'].split(':')[0]
         return r
     try:
         model = _new_model(case)
